@@ -105,6 +105,11 @@ def oracle_cases(item, seed, extra_x=(), Ns=None):
             xs = [x for x in xs if 0.0 <= x <= 1.0]
             for (lo, up) in (([-0.5] * N, [0.5] * N), ([-2.0 + i for i in range(N)], [3.5 + 2 * i for i in range(N)])):
                 cases.append(dict(N=N, m=m, lower=lo, upper=up, xs=xs))
+            if N * m >= 40 or (N == 2 and m >= 20):
+                cases.append(dict(N=N, m=m, lower=[10.0] * N, upper=[11.0] * N, xs=xs[:150], dtype="float32"))
+            if m == 4:
+                cases.append(dict(N=N, m=m, lower=[1000.0005 + i for i in range(N)], upper=[1000.0015 + i for i in range(N)],
+                                  xs=xs[:120], via_setbounds="near"))
             if m in (2, 10):
                 cases.append(dict(N=N, m=m, lower=[-0.5 + 0.125 * i for i in range(N)], upper=[0.75 + i for i in range(N)],
                                   xs=xs[:200], via_setbounds=True))
